@@ -30,6 +30,8 @@ def _merge_function_stubs(function: Function, stubs: Function) -> None:
         with suppress(KeyError):
             function.parameters[parameter.name].annotation = parameter.annotation
     function.returns = stubs.returns
+    if stubs.overloads:
+        function.overloads = stubs.overloads
 
 
 def _merge_attribute_stubs(attribute: Attribute, stubs: Attribute) -> None:
